@@ -1,5 +1,5 @@
 """Generators of cache configurations and operation sequences (one PRNG, everything derived from it)."""
-from cache_trace import ALGS, UNHASH, UNENC
+from cache_trace import ALGS, UNHASH, UNENC, LAMBDA, UNHASHF
 
 PERSISTENT = ('file', 'dir', 'sql')
 
@@ -16,11 +16,12 @@ def gen_cfg(rng, focus=None, thorough=False):
     backend = rng.choice(backends)
     keymaps = focus.get('keymaps')
     if keymaps is None:
-        keymaps = ['hash', 'hash', 'raw', 'str', 'md5', 'default', 'pickle', 'hash-typed', 'str-nf']
+        keymaps = ['hash', 'hash', 'raw', 'str', 'md5', 'default', 'pickle', 'hash-typed', 'str-nf', 'md5-typed',
+                   'pickle-std', 'raw-typed']
     keymap = rng.choice(keymaps)
-    if backend == 'sql' and keymap in ('raw', 'raw-nf', 'pickle'):
+    if backend == 'sql' and keymap in ('raw', 'raw-nf', 'pickle', 'raw-typed', 'pickle-std'):
         keymap = 'str'                      # sqlite cannot bind tuples; bytes keys are fine but slow
-    if backend in ('dir', 'direct-dir') and keymap in ('pickle',):
+    if backend in ('dir', 'direct-dir') and keymap in ('pickle', 'pickle-std'):
         keymap = 'md5'
     r = rng.random()
     if alg in ('no', 'inf'):
@@ -39,15 +40,23 @@ def gen_cfg(rng, focus=None, thorough=False):
         raising = sorted(rng.sample(range(nargs), rng.randint(1, max(1, nargs // 3))))
     special = []
     if rng.random() < focus.get('p_special', 0.3):
-        special = [UNHASH] if rng.random() < 0.6 else [UNHASH, UNENC]
-        if rng.random() < 0.3:
+        special = rng.choice([[UNHASH], [UNHASH], [UNHASH, UNENC], [UNHASH, LAMBDA], [UNHASHF, UNHASH], [LAMBDA]])
+        if rng.random() < 0.3 and UNHASH in special:
             raising = raising + [UNHASH]
+    # rounding tolerance (float arguments), typed twins (typed keymaps), string arguments (*args stub)
+    tol = rng.choice([None, None, None, 0, 1, 2])
+    deep = rng.random() < 0.4
+    stub = 'var' if rng.random() < 0.15 else 'named'
+    none_arg = (nargs - 1) if rng.random() < 0.25 else None
+    if none_arg is not None and none_arg in raising:
+        raising = [a for a in raising if a != none_arg]
     if backend in ('direct-file', 'direct-dir'):
         # an unhashable key is a usable key for a file/directory archive used directly: outside the integer-key model
         special = []
         raising = [a for a in raising if a != UNHASH]
-    return {'alg': alg, 'safe': safe, 'backend': backend, 'keymap': keymap, 'maxsize': maxsize,
-            'maxhow': how, 'purge': purge, 'nargs': nargs, 'raising': raising, 'special': special}
+    extra = {'tol': tol, 'deep': deep, 'stub': stub, 'none_arg': none_arg}
+    return dict(extra, **{'alg': alg, 'safe': safe, 'backend': backend, 'keymap': keymap, 'maxsize': maxsize,
+            'maxhow': how, 'purge': purge, 'nargs': nargs, 'raising': raising, 'special': special})
 
 
 def gen_ops(rng, cfg, n, focus=None):
@@ -74,7 +83,23 @@ def gen_ops(rng, cfg, n, focus=None):
             ops.append(('load', []))
     mode = rng.choice(['hot', 'uniform', 'scan'])
     scan_i = 0
+    # scenario: fill past the bound with an archive attached, detach it, keep inserting new keys
+    detach_at = None
+    if not direct and not focus.get('calls_only') and rng.random() < focus.get('p_detach', 0.15):
+        detach_at = rng.randint(min(n - 1, 6), max(7, n // 2))
+    # scenario: entries staged in memory by a bulk load, then the archive is replaced
+    if not direct and not focus.get('calls_only') and cfg['keymap'] != 'raw-nf' and rng.random() < focus.get('p_restage', 0.12):
+        for a in rng.sample(range(nargs), rng.randint(2, nargs)):
+            ops.append(('archset', a))
+        ops.append(('load', []))
+        ops.append(('setarch', sorted(rng.sample(range(nargs), rng.randint(0, 2)))))
     while len(ops) < n:
+        if detach_at is not None and len(ops) >= detach_at:
+            detach_at = None
+            ops.append(rng.choice([('archived', False), ('setarch', None)]))
+            for a in rng.sample(range(nargs), min(nargs, rng.randint(3, 8))):
+                ops.append(('call', a))
+            continue
         if rng.random() < 0.03:
             mode = rng.choice(['hot', 'uniform', 'scan'])
         kind = rng.choices(kinds, weights)[0]
@@ -83,6 +108,15 @@ def gen_ops(rng, cfg, n, focus=None):
             nonlocal scan_i
             if allow_special and cfg['special'] and rng.random() < 0.08:
                 return rng.choice(cfg['special'])
+            if allow_special and rng.random() < 0.12:
+                r2 = rng.random()
+                if r2 < 0.45:
+                    return ('f', rng.randrange(5))
+                if r2 < 0.75 and 'typed' in cfg['keymap'] and cfg.get('stub') != 'var':
+                    return ('t', rng.randrange(6))
+                if cfg.get('stub') == 'var' and cfg['keymap'] not in ('str', 'str-nf'):
+                    # (under stringmap, str(5) == str('5') for a bare argument: known finding K4 of C10)
+                    return ('s', rng.randrange(nargs))
             if mode == 'hot' and rng.random() < 0.7:
                 return rng.choice(hot)
             if mode == 'scan':
